@@ -378,3 +378,40 @@ func (s *Sel) guardedByReadyLogMatch(in ssa.Instruction) bool {
 
 var _ = token.ADD
 var _ types.Type
+
+// checkLatchContextsIndependent (C01, C05): the readiness and log-ready contexts are roots of their own. If they were
+// children of a context that the stop path cancels first (the run context), that cancellation would release the
+// waiters with the parent's cause (context.Canceled, which the log-ready wait reads as "the line was printed")
+// before the stop path can give its own cause.
+func (s *Sel) checkLatchContextsIndependent(c *Ctx, ruleID string) {
+	p := c.P
+	rule := c.Rule(ruleID, "the contexts stored into procReadyCtx and procLogReadyCtx are created from context.Background()/TODO(), not from another context of the process")
+	n := 0
+	for _, f := range p.FuncsOfPkg("app") {
+		for _, fld := range []*types.Var{s.FReadyCtx, s.FLogReadyCtx} {
+			for _, in := range DirectSites(f, StoreTo("ctx", fld)) {
+				v, _ := StoredValue(in, fld)
+				ex, ok := stripConv(v).(*ssa.Extract)
+				if !ok {
+					continue
+				}
+				call, ok := ex.Tuple.(*ssa.Call)
+				if !ok || len(call.Call.Args) == 0 {
+					continue
+				}
+				n++
+				c.Touch(f)
+				okRoot := false
+				if pc, isC := stripConv(call.Call.Args[0]).(*ssa.Call); isC {
+					if o := CalleeObj(&pc.Call); o != nil && o.Pkg() != nil && o.Pkg().Path() == "context" && (o.Name() == "Background" || o.Name() == "TODO") {
+						okRoot = true
+					}
+				}
+				c.Check(okRoot, rule, p.CanonName(fld), p.InstrPos(in), "a root context", "the context is derived from another context of the process: cancelling that one (the stop path cancels the run context first) releases the waiters with the cause context.Canceled, so a dependency stopped before it was ready / printed its line counts as ready and its dependents are launched")
+			}
+		}
+	}
+	if n < 2 {
+		c.Bad(rule, "floor:latch-contexts", "", "the creation of procReadyCtx / procLogReadyCtx was not found")
+	}
+}
